@@ -1851,7 +1851,29 @@ impl ElementMut for XmlElement {
     }
 
     fn normalize(&self) {
-        todo!()
+        // adjacent Text children become one Text node (the first of the run keeps the data),
+        // in the whole subtree.
+        let mut first: Option<XmlText> = None;
+        for child in self.child_nodes().iter() {
+            match child {
+                XmlNode::Text(text) => match &first {
+                    Some(kept)
+                        if text
+                            .data()
+                            .and_then(|data| kept.append_data(data.as_str()))
+                            .is_ok() =>
+                    {
+                        let _ = self.remove_child(&text.as_node());
+                    }
+                    _ => first = Some(text),
+                },
+                XmlNode::Element(element) => {
+                    first = None;
+                    element.normalize();
+                }
+                _ => first = None,
+            }
+        }
     }
 }
 
